@@ -7,6 +7,11 @@ SEEDED = "/verif/seeded"
 
 # seeded change -> what happened the first time and what was strengthened
 HISTORY = {
+    "C05-15": "missed by C05 at first (the Observe number space was only read through ObserveOption::try_from): all 65536 values now also go through CoapRequest::get_observe_flag, minimal and zero-padded",
+    "C17-16": "missed at first (the checks called to_cow() and never the `From<Unquote> for Cow` conversion, as the coverage measurement had shown): every value is now also converted with Cow::from",
+    "C19-20": "missed at first (the trait writers ran on a packet without payload): half of the writer cases now start from a packet that already has a payload",
+    "C04-15": "outside the stated domain: manifests only when the header's token-length nibble disagrees with the stored token (header replaced after set_token) or with a 256-byte token; the message model of C01/C04 has one token of 0..8 bytes and no separate TKL field, and the unchanged crate itself emits a malformed datagram for such a packet",
+    "C03-19": "needs the `udp` feature set: caught by the quick tier's `std,udp` configuration",
     "C03-16": "missed at first (no datagram repeated one option number more than a few dozen times): `large-datagrams` (C02/C03) now repeats one number 254..70000 times and C01 got `repeated-option-values` (254..5000 values through add_option)",
     "C08-17": "missed at first (traffic on other keys between two blocks was plain and on unrelated paths): the in-between traffic now also runs complete block-wise downloads on seven look-alike keys (other endpoint, other method, empty segment in front / behind, segments joined, longer, shorter)",
     "C10-17": "missed at first (upload requests never carried a Block2 preference): a quarter of the random uploads now send Block2 with every block and get a large reply, whose block size is bound by that preference",
